@@ -36,8 +36,8 @@ int main(int argc, char** argv) {
     vf::Run run("C02", argc, argv);
     const int D = run.thorough() ? 7 : 5;
     const int NOP = 7;
-    run.rule = "E2: every history of <= " + std::to_string(D) + " operations over {insert pressure / temperature / dimensionless / integer / permeability array, convertToSI, convertFromSI} x {METRIC, FIELD, LAB, PVT-M} x {Solution(si=true), Solution(si=false)} x {data::Solution, RestartValue::convert*} on the real classes; after every step each array is compared (1e-12 relative) with the value it had when inserted, read in the representation the container was in then, expressed in the representation the container is in now; distinct = distinct (history, configuration) executed";
-    run.assumptions = {"an inserted array is in the representation the container is in at the time of the insert (that is how RestartIO::load and the simulators use it)", "RestartValue extra vectors carry no flag and are left out", "the factors themselves are decided by C02_units"};
+    run.rule = "E2: every history of <= " + std::to_string(D) + " operations over {insert pressure / temperature / dimensionless / integer / permeability array, convertToSI, convertFromSI} x {METRIC, FIELD, LAB, PVT-M} x {Solution(si=true), Solution(si=false)} x {data::Solution, RestartValue::convert*} on the real classes; after every step each array is compared (1e-12 relative) with the value it had when inserted, read in the representation the container was in then, expressed in the representation the container is in now; plus RestartValue::addExtra through all four overloads x every measure x 4 unit systems; distinct = distinct (history, configuration) executed";
+    run.assumptions = {"an inserted array is in the representation the container is in at the time of the insert (that is how RestartIO::load and the simulators use it)", "RestartValue extra vectors carry no flag: they are covered by one convertFromSI + convertToSI per overload x measure x unit system, not by histories", "the factors themselves are decided by C02_units"};
     const UnitSystem::UnitType types[4] = {UnitSystem::UnitType::UNIT_TYPE_METRIC, UnitSystem::UnitType::UNIT_TYPE_FIELD, UnitSystem::UnitType::UNIT_TYPE_LAB, UnitSystem::UnitType::UNIT_TYPE_PVT_M};
     const char* tname[4] = {"METRIC", "FIELD", "LAB", "PVT-M"};
     std::vector<int> h;
@@ -86,6 +86,36 @@ int main(int argc, char** argv) {
         std::istringstream ss(run.replay_path); std::string tag; int ut, init_si, wrap; ss >> tag >> ut >> init_si >> wrap; int x; while (ss >> x) h.push_back(x);
         run_history(ut, init_si, wrap);
         return run.finish();
+    }
+    // RestartValue extra vectors: every addExtra overload x every measure x every unit system; convertFromSI must give the
+    // values converted with the scalar from_si of that measure, convertToSI must bring them back
+    if (run.shard == 0) {
+        const std::vector<double> si = {2.5e7, 1.0e5, 350.0, 0.0};
+        for (int ut = 0; ut < 4; ++ut) for (int m = 0; m < static_cast<int>(UnitSystem::measure::_count); ++m) for (int ov = 0; ov < 4; ++ov) {
+            const UnitSystem units(types[ut]);
+            const auto meas = static_cast<UnitSystem::measure>(m);
+            double probe; try { probe = units.from_si(meas, 1.0); (void)probe; } catch (const std::exception&) { continue; }
+            const std::string cs = "EXTRA " + std::to_string(ut) + " " + std::to_string(m) + " " + std::to_string(ov);
+            run.current(cs); run.evaluations++;
+            const std::string rp = "{\"case\": " + vf::jstr(cs) + "}";
+            try {
+                RestartValue rv{data::Solution(true), data::Wells{}, data::GroupAndNetworkValues{}, data::Aquifers{}};
+                const bool with_measure = ov < 2, as_float = (ov % 2) == 1;
+                if (with_measure) { if (as_float) rv.addExtra("EXTRA", meas, std::vector<float>(si.begin(), si.end())); else rv.addExtra("EXTRA", meas, si); }
+                else { if (as_float) rv.addExtra("EXTRA", std::vector<float>(si.begin(), si.end())); else rv.addExtra("EXTRA", si); }
+                rv.convertFromSI(units);
+                const auto& got = rv.getExtra("EXTRA");
+                for (size_t i = 0; i < si.size(); ++i) {
+                    const double in = as_float ? double(float(si[i])) : si[i];
+                    const double want = with_measure ? units.from_si(meas, in) : in;
+                    if (!close(got[i], want)) { run.violation(std::string("C02:extra:") + (as_float ? "float" : "double") + (with_measure ? "-measure" : "-plain") + ":from-si", std::string(tname[ut]) + ": extra vector added with " + (with_measure ? "measure " + std::to_string(m) : std::string("no measure")) + " through the " + (as_float ? "float" : "double") + " overload holds " + vf::fmt17(got[i]) + " after convertFromSI, expected " + vf::fmt17(want) + "; case " + cs, rp); break; }
+                }
+                rv.convertToSI(units);
+                const auto& back = rv.getExtra("EXTRA");
+                for (size_t i = 0; i < si.size(); ++i) { const double in = as_float ? double(float(si[i])) : si[i]; if (!close(back[i], in) && std::fabs(back[i] - in) > 1e-9 * (1 + std::fabs(in))) { run.violation("C02:extra:roundtrip", std::string(tname[ut]) + ": extra vector does not return to its SI value after convertFromSI/convertToSI (" + vf::fmt17(back[i]) + " vs " + vf::fmt17(in) + "); case " + cs, rp); break; } }
+                run.count("extra_vector_cases");
+            } catch (const std::exception& e) { run.violation("C02:extra:throws", std::string("extra vector case throws: ") + e.what() + "; case " + cs, rp); }
+        }
     }
     std::function<void()> rec = [&]() {
         if (!h.empty() && run.mine()) for (int ut = 0; ut < 4; ++ut) for (int init_si = 0; init_si < 2; ++init_si) for (int wrap = 0; wrap < 2; ++wrap) run_history(ut, init_si, wrap);
